@@ -1028,13 +1028,17 @@ def constructs(ast_line):
     return ks
 
 
-def run_model_safe(env, name, impl_recs, order, chunk=400, timeout=None):
+def run_model_safe(env, name, impl_recs, order, chunk=200, timeout=None):
     """langrun.run_model with a large native stack for the extracted evaluator (deep recursion of a
-    program under test must end in the model's `fuel`, not in an OCaml stack overflow); a chunk that
-    still dies is bisected and the offending case is left without a model record (inconclusive)."""
+    program under test must end in the model's `fuel`, not in an OCaml stack overflow), NPROC chunks
+    at a time; a chunk that dies or times out is bisected and the offending case is left without a
+    model record (inconclusive)."""
     out = {}
+    counter = [0]
 
-    def run(ids, tag):
+    def launch(ids):
+        counter[0] += 1
+        tag = "c%d" % counter[0]
         inp = os.path.join(env.work, "%s.%s.model.in" % (name, tag))
         outp = os.path.join(env.work, "%s.%s.model" % (name, tag))
         with open(inp, "w") as f:
@@ -1043,24 +1047,24 @@ def run_model_safe(env, name, impl_recs, order, chunk=400, timeout=None):
                 if not r or not r.get("ast") or not r.get("plan"):
                     continue
                 f.write("case %s\n%s\n%s\nend %s\n" % (cid, r["ast"], r["plan"], cid))
+        if os.path.exists(outp):
+            os.remove(outp)
         cmd = "ulimit -s unlimited 2>/dev/null || ulimit -s 1000000; ulimit -v 6000000; exec %s lang %s %s %s" % (
             common.NSMODEL, langrun.eps_hex(), inp, outp)
-        rc, o = common.sh(["bash", "-c", cmd], timeout=timeout or (60 + len(ids)))
-        if rc == 0:
-            out.update(langrun.parse_records(open(outp).read().splitlines()))
-            return True
-        return False
+        return ["bash", "-c", cmd], outp
 
     todo = [order[i:i + chunk] for i in range(0, len(order), chunk)]
-    k = 0
     while todo:
-        ids = todo.pop()
-        k += 1
-        if run(ids, "c%d" % k):
-            continue
-        if len(ids) > 1:
-            todo.append(ids[:len(ids) // 2])
-            todo.append(ids[len(ids) // 2:])
+        batch = [todo.pop() for _ in range(min(NPROC, len(todo)))]
+        jobs = [launch(ids) for ids in batch]
+        limit = timeout or (60 + max(len(ids) for ids in batch))
+        rs = run_parallel([j[0] for j in jobs], limit)
+        for ids, (cmdline, outp), (rc, _) in zip(batch, jobs, rs):
+            if rc == 0 and os.path.exists(outp):
+                out.update(langrun.parse_records(open(outp).read().splitlines()))
+            elif len(ids) > 1:
+                todo.append(ids[:len(ids) // 2])
+                todo.append(ids[len(ids) // 2:])
     return out
 
 
